@@ -1,4 +1,214 @@
-fn main() {
-    std::process::exit(vh_dec_worker());
+//! Isolated decoder process for C10.
+//!
+//! Protocol (binary on stdin, text on stdout): request = [u8 entry][u32 le len][bytes];
+//! response = one line "D <outcome> <maxrss_kb> <cpu_ms> <detail>" where outcome is
+//! ok | err | panic.  A crash (stack overflow, abort, sanitizer report) ends the process; the
+//! supervisor attributes it to the request it was waiting for.
+//!
+//! Each request is decoded on a thread with a 2 MiB stack (Rust's default thread stack).
+
+use std::io::{Read, Write};
+use yrs::encoding::read::Cursor;
+use yrs::sync::{AwarenessUpdate, MessageReader};
+use yrs::updates::decoder::{Decode, DecoderV1};
+use yrs::updates::encoder::{Encode, Encoder, EncoderV1};
+use yrs::{Any, IdSet, Snapshot, StateVector, StickyIndex, Update};
+
+pub const ENTRIES: [&str; 21] = [
+    "Update::decode_v1",
+    "Update::decode_v2",
+    "StateVector::decode_v1",
+    "StateVector::decode_v2",
+    "Snapshot::decode_v1",
+    "Snapshot::decode_v2",
+    "IdSet::decode_v1",
+    "IdSet::decode_v2",
+    "StickyIndex::decode_v1",
+    "StickyIndex::decode_v2",
+    "StickyIndex::from_json",
+    "Any::decode",
+    "Any::from_json",
+    "MessageReader",
+    "AwarenessUpdate::decode_v1",
+    "merge_updates_v1",
+    "merge_updates_v2",
+    "diff_updates_v1",
+    "diff_updates_v2",
+    "encode_state_vector_from_update_v1",
+    "encode_state_vector_from_update_v2",
+];
+
+/// returns Ok(true) = value, Ok(false) = error
+fn run(entry: u8, data: &[u8]) -> bool {
+    fn split(data: &[u8]) -> (&[u8], &[u8]) {
+        if data.is_empty() {
+            return (data, data);
+        }
+        let k = (data[0] as usize).min(data.len() - 1);
+        (&data[1..1 + k], &data[1 + k..])
+    }
+    match entry {
+        0 => match Update::decode_v1(data) {
+            Ok(u) => {
+                let _ = u.encode_v1();
+                let _ = u.encode_v2();
+                let _ = u.state_vector();
+                let _ = u.insertions(true);
+                true
+            }
+            Err(_) => false,
+        },
+        1 => match Update::decode_v2(data) {
+            Ok(u) => {
+                let _ = u.encode_v1();
+                let _ = u.encode_v2();
+                true
+            }
+            Err(_) => false,
+        },
+        2 => StateVector::decode_v1(data).map(|v| v.encode_v1()).is_ok(),
+        3 => StateVector::decode_v2(data).map(|v| v.encode_v2()).is_ok(),
+        4 => Snapshot::decode_v1(data).map(|v| v.encode_v1()).is_ok(),
+        5 => Snapshot::decode_v2(data).map(|v| v.encode_v2()).is_ok(),
+        6 => IdSet::decode_v1(data).map(|v| v.encode_v1()).is_ok(),
+        7 => IdSet::decode_v2(data).map(|v| v.encode_v2()).is_ok(),
+        8 => StickyIndex::decode_v1(data).map(|v| v.encode_v1()).is_ok(),
+        9 => StickyIndex::decode_v2(data).map(|v| v.encode_v2()).is_ok(),
+        10 => serde_json::from_slice::<StickyIndex>(data).map(|v| serde_json::to_string(&v)).is_ok(),
+        11 => {
+            let mut c = Cursor::new(data);
+            match Any::decode(&mut c) {
+                Ok(a) => {
+                    let mut e = EncoderV1::new();
+                    a.encode(&mut e);
+                    let _ = e.to_vec();
+                    let mut s = String::new();
+                    a.to_json(&mut s);
+                    true
+                }
+                Err(_) => false,
+            }
+        }
+        12 => match std::str::from_utf8(data) {
+            Ok(s) => Any::from_json(s).is_ok(),
+            Err(_) => false,
+        },
+        13 => {
+            let mut d = DecoderV1::new(Cursor::new(data));
+            let mut ok = true;
+            let mut n = 0;
+            for m in MessageReader::new(&mut d) {
+                match m {
+                    Ok(m) => {
+                        let _ = m.encode_v1();
+                    }
+                    Err(_) => {
+                        ok = false;
+                        break;
+                    }
+                }
+                n += 1;
+                if n > 1_000_000 {
+                    break;
+                }
+            }
+            ok
+        }
+        14 => AwarenessUpdate::decode_v1(data).map(|v| v.encode_v1()).is_ok(),
+        15 => {
+            let (a, b) = split(data);
+            yrs::merge_updates_v1([a, b]).is_ok()
+        }
+        16 => {
+            let (a, b) = split(data);
+            yrs::merge_updates_v2([a, b]).is_ok()
+        }
+        17 => {
+            let (sv, u) = split(data);
+            yrs::diff_updates_v1(u, sv).is_ok()
+        }
+        18 => {
+            let (sv, u) = split(data);
+            yrs::diff_updates_v2(u, sv).is_ok()
+        }
+        19 => yrs::encode_state_vector_from_update_v1(data).is_ok(),
+        20 => yrs::encode_state_vector_from_update_v2(data).is_ok(),
+        _ => false,
+    }
 }
-fn vh_dec_worker() -> i32 { 0 }
+
+fn maxrss_kb() -> i64 {
+    unsafe {
+        let mut ru: libc::rusage = std::mem::zeroed();
+        libc::getrusage(libc::RUSAGE_SELF, &mut ru);
+        ru.ru_maxrss as i64
+    }
+}
+
+fn cpu_ms() -> i64 {
+    unsafe {
+        let mut ru: libc::rusage = std::mem::zeroed();
+        libc::getrusage(libc::RUSAGE_SELF, &mut ru);
+        (ru.ru_utime.tv_sec as i64 + ru.ru_stime.tv_sec as i64) * 1000 + (ru.ru_utime.tv_usec as i64 + ru.ru_stime.tv_usec as i64) / 1000
+    }
+}
+
+fn main() {
+    // optional address-space limit (MiB) — not usable under AddressSanitizer
+    if let Ok(mb) = std::env::var("DEC_WORKER_AS_MB") {
+        if let Ok(mb) = mb.parse::<u64>() {
+            unsafe {
+                let lim = libc::rlimit { rlim_cur: mb << 20, rlim_max: mb << 20 };
+                libc::setrlimit(libc::RLIMIT_AS, &lim);
+            }
+        }
+    }
+    std::panic::set_hook(Box::new(|info| {
+        let loc = info.location().map(|l| format!("{}:{}", l.file(), l.line())).unwrap_or_else(|| "?".into());
+        let msg = if let Some(s) = info.payload().downcast_ref::<&str>() {
+            s.to_string()
+        } else if let Some(s) = info.payload().downcast_ref::<String>() {
+            s.clone()
+        } else {
+            "?".to_string()
+        };
+        PANIC.with(|p| *p.borrow_mut() = Some(format!("{} {}", loc, msg.replace('\n', " "))));
+        // the decoding thread is a different thread than main: use a global
+        *LAST_PANIC.lock().unwrap() = Some(format!("{} {}", loc, msg.replace('\n', " ")));
+    }));
+    let stdin = std::io::stdin();
+    let mut stdin = stdin.lock();
+    let stdout = std::io::stdout();
+    let mut stdout = stdout.lock();
+    loop {
+        let mut head = [0u8; 5];
+        if stdin.read_exact(&mut head).is_err() {
+            break;
+        }
+        let entry = head[0];
+        let len = u32::from_le_bytes([head[1], head[2], head[3], head[4]]) as usize;
+        let mut data = vec![0u8; len];
+        if stdin.read_exact(&mut data).is_err() {
+            break;
+        }
+        let rss0 = maxrss_kb();
+        let cpu0 = cpu_ms();
+        *LAST_PANIC.lock().unwrap() = None;
+        let handle = std::thread::Builder::new().stack_size(2 << 20).spawn(move || run(entry, &data)).expect("spawn");
+        let res = handle.join();
+        let rss1 = maxrss_kb();
+        let cpu1 = cpu_ms();
+        let (outcome, detail) = match res {
+            Ok(true) => ("ok", String::new()),
+            Ok(false) => ("err", String::new()),
+            Err(_) => ("panic", LAST_PANIC.lock().unwrap().clone().unwrap_or_default()),
+        };
+        let _ = writeln!(stdout, "D {} {} {} {}", outcome, rss1 - rss0, cpu1 - cpu0, detail);
+        let _ = stdout.flush();
+    }
+}
+
+thread_local! {
+    static PANIC: std::cell::RefCell<Option<String>> = std::cell::RefCell::new(None);
+}
+static LAST_PANIC: std::sync::Mutex<Option<String>> = std::sync::Mutex::new(None);
